@@ -9,7 +9,8 @@ package main
 //         optional 5th field rootform: HOW the walked directory is named to NewFS / Walk / WalkDir
 //         (real directory, symlink to it with absolute / relative link text, symlink chain, through a
 //         symlinked intermediate component, trailing slash, "." / ".." segments, ".." after a symlink,
-//         relative to the working directory ...; see c09PlaceRoot).  The snapshot is always taken of
+//         relative to the working directory ..., and the directory being the FILESYSTEM ROOT, named "/", "//",
+//         "/.", "/..", "." - the walk then runs in a child process chroot-ed into it; see c09PlaceRoot).  The snapshot is always taken of
 //         the directory the name RESOLVES to (checked with the kernel: os.Stat(name) is the same file).
 //   0902  input (((dirstat view extra-links [rootform]) ...) target) -> ((snapshot ...) callbacks err)
 //         SubDirFS over one NewFS per sub-root; target "" or a sub-target "name/rest"
@@ -24,10 +25,13 @@ package main
 // field, removes the directory, and returns both.  The glue feeds the snapshot to the model.
 
 import (
+	"bytes"
 	"context"
 	"fmt"
+	"io"
 	gofs "io/fs"
 	"os"
+	"os/exec"
 	"path/filepath"
 	"sort"
 	"strings"
@@ -150,33 +154,21 @@ func run0901(in Sx) Sx {
 		if err := c09Materialize(view, in.L[1], realdir); err != nil {
 			return harnessErr(err)
 		}
-		if err := c09SameDir(root, realdir); err != nil {
+		if err := c09SameDir(root, realdir, rootform); err != nil {
 			return harnessErr(err)
 		}
 		snap, err := snapSx(realdir)
 		if err != nil {
 			return harnessErr(err)
 		}
-		rec := &c09rec{}
-		ctx := context.Background()
-		var werr error
-		switch api {
-		case 0:
-			// a refusal of NewFS is an outcome of the code under test (reported as the walk's error)
-			f, err := fsutil.NewFS(root)
-			if err != nil {
-				werr = err
-			} else {
-				werr = f.Walk(ctx, target, rec.dirFn)
-			}
-		case 1:
-			werr = fsutil.WalkDir(ctx, root, nil, rec.dirFn)
-		case 2:
-			werr = fsutil.WalkDir(ctx, root, &fsutil.FilterOpt{}, rec.dirFn)
-		default:
-			werr = fsutil.Walk(ctx, root, nil, rec.walkFn)
+		res, err := c09RunReq(c09Jail(rootform, realdir), L(N(1), S(root), S(target), NI(api)))
+		if err != nil {
+			return harnessErr(err)
 		}
-		return L(snap, L(rec.cbs...), errCode(werr))
+		if len(res.L) != 2 || res.L[0].Kind != 'l' {
+			return res // panic of the code under test inside the child
+		}
+		return L(snap, res.L[0], res.L[1])
 	})
 }
 
@@ -191,6 +183,9 @@ func c09Composite(sds Sx, dir string) (snaps []Sx, sfs fsutil.FS, code uint64, h
 		if len(sd.L) > 3 {
 			rootform = sd.L[3].Int()
 		}
+		if rootform >= c09RootFormsNoJail {
+			return nil, nil, 0, fmt.Errorf("root form %d needs a chroot child: not available for sub-roots", rootform)
+		}
 		sub := filepath.Join(dir, fmt.Sprintf("s%d", i))
 		if err := os.Mkdir(sub, 0755); err != nil {
 			return nil, nil, 0, err
@@ -202,7 +197,7 @@ func c09Composite(sds Sx, dir string) (snaps []Sx, sfs fsutil.FS, code uint64, h
 		if err := c09Materialize(SxView(sd.L[1]), sd.L[2], realdir); err != nil {
 			return nil, nil, 0, err
 		}
-		if err := c09SameDir(root, realdir); err != nil {
+		if err := c09SameDir(root, realdir, rootform); err != nil {
 			return nil, nil, 0, err
 		}
 		snap, err := snapSx(realdir)
@@ -285,18 +280,21 @@ func run0904(in Sx) Sx {
 		if err := c09Materialize(SxView(in.L[0]), in.L[1], realdir); err != nil {
 			return harnessErr(err)
 		}
-		if err := c09SameDir(root, realdir); err != nil {
+		if err := c09SameDir(root, realdir, in.L[2].Int()); err != nil {
 			return harnessErr(err)
 		}
 		snap, err := snapSx(realdir)
 		if err != nil {
 			return harnessErr(err)
 		}
-		f, err := fsutil.NewFS(root)
+		res, err := c09RunReq(c09Jail(in.L[2].Int(), realdir), L(N(4), S(root), in.L[3]))
 		if err != nil {
-			f = nil
+			return harnessErr(err)
 		}
-		return L(snap, L(c09Steps(f, in.L[3], 1)...))
+		if len(res.L) == 2 && res.L[0].Kind == 'n' {
+			return res // panic of the code under test inside the child
+		}
+		return L(snap, res)
 	})
 }
 
@@ -386,11 +384,30 @@ const (
 	//                           while the purely lexical reading <dir>/r is a decoy directory
 	c09RootRelCwd    // the real directory, relative to the process working directory
 	c09RootSymRelCwd // a symlink to it, relative to the process working directory
-	c09RootForms     // number of forms
+	// the directory IS the filesystem root: the code under test runs in a child process chroot-ed into
+	// <dir>/r (cwd "/"), and the root is named
+	c09RootFsRoot       // "/"
+	c09RootFsRootSlash  // "//"
+	c09RootFsRootDot    // "/."
+	c09RootFsRootDotDot // "/.."        (".." of the root is the root)
+	c09RootFsRootNoise  // "/./..//"
+	c09RootFsRootCwd    // "."          (relative; the working directory is the root)
+	c09RootForms        // number of forms
 )
 
+const c09RootFormsNoJail = c09RootFsRoot // forms below this number need no chroot child
+
 var c09RootFormNames = []string{"real", "symabs", "symrel", "symchain", "midsymabs", "midsymrel", "slash",
-	"dotsegs", "symslash", "symdot", "symdotdot", "relcwd", "symrelcwd"}
+	"dotsegs", "symslash", "symdot", "symdotdot", "relcwd", "symrelcwd",
+	"fsroot", "fsroot-slash", "fsroot-dot", "fsroot-dotdot", "fsroot-noise", "fsroot-cwd"}
+
+// c09Jail: for the fsroot forms the directory to chroot into ("" = run in this process)
+func c09Jail(form int, realdir string) string {
+	if form >= c09RootFsRoot && form < c09RootForms {
+		return realdir
+	}
+	return ""
+}
 
 func c09RelToCwd(p string) (string, error) {
 	cwd, err := os.Readlink("/proc/self/cwd") // physical working directory
@@ -465,6 +482,18 @@ func c09PlaceRoot(dir string, form int) (string, string, error) {
 		if err = os.Symlink("r", j("lr")); err == nil {
 			name, err = c09RelToCwd(j("lr"))
 		}
+	case c09RootFsRoot:
+		name = "/"
+	case c09RootFsRootSlash:
+		name = "//"
+	case c09RootFsRootDot:
+		name = "/."
+	case c09RootFsRootDotDot:
+		name = "/.."
+	case c09RootFsRootNoise:
+		name = "/./..//"
+	case c09RootFsRootCwd:
+		name = "."
 	default:
 		err = fmt.Errorf("unknown root form %d", form)
 	}
@@ -473,7 +502,10 @@ func c09PlaceRoot(dir string, form int) (string, string, error) {
 
 // c09SameDir checks with the kernel (stat follows symlinks, independent of fsutil / filepath)
 // that name resolves to the directory realdir: the harness layout is what it claims to be.
-func c09SameDir(name, realdir string) error {
+func c09SameDir(name, realdir string, form int) error {
+	if c09Jail(form, realdir) != "" {
+		return nil // inside the chroot child "/" (and "." after chdir("/")) IS realdir by construction
+	}
 	a, err := os.Stat(name)
 	if err != nil {
 		return err
@@ -493,6 +525,106 @@ func c09PickRootForm(r *Rng) int {
 		return c09RootReal
 	}
 	return 1 + r.Intn(c09RootForms-1)
+}
+
+// sub-roots of a composite cannot each be "/": forms that need no chroot child
+func c09PickRootFormNoJail(r *Rng) int {
+	if r.Chance(50) {
+		return c09RootReal
+	}
+	return 1 + r.Intn(c09RootFormsNoJail-1)
+}
+
+// ---------------------------------------------------------------- running the walk here or in a chroot child
+
+// A walk request: (#1 root target api) -> (callbacks err);  (#4 root (step ...)) -> ((callbacks err) ...)
+func c09DoReq(req Sx) Sx {
+	root := req.L[1].Str()
+	switch req.L[0].Int() {
+	case 1:
+		target, api := req.L[2].Str(), req.L[3].Int()
+		rec := &c09rec{}
+		ctx := context.Background()
+		var werr error
+		switch api {
+		case 0:
+			// a refusal of NewFS is an outcome of the code under test (reported as the walk's error)
+			f, err := fsutil.NewFS(root)
+			if err != nil {
+				werr = err
+			} else {
+				werr = f.Walk(ctx, target, rec.dirFn)
+			}
+		case 1:
+			werr = fsutil.WalkDir(ctx, root, nil, rec.dirFn)
+		case 2:
+			werr = fsutil.WalkDir(ctx, root, &fsutil.FilterOpt{}, rec.dirFn)
+		default:
+			werr = fsutil.Walk(ctx, root, nil, rec.walkFn)
+		}
+		return L(L(rec.cbs...), errCode(werr))
+	default:
+		f, err := fsutil.NewFS(root)
+		if err != nil {
+			f = nil
+		}
+		return L(c09Steps(f, req.L[2], 1)...)
+	}
+}
+
+// c09RunReq runs the request in this process (jail == "") or in a child process of the harness that
+// chroots into jail and chdirs to "/" first (request on stdin, result on stdout: nothing is written
+// into the jail).
+func c09RunReq(jail string, req Sx) (Sx, error) {
+	if jail == "" {
+		return c09DoReq(req), nil
+	}
+	exe, err := os.Executable()
+	if err != nil {
+		return Sx{}, err
+	}
+	ctx, cancel := context.WithTimeout(context.Background(), 9*time.Second)
+	defer cancel()
+	cmd := exec.CommandContext(ctx, exe, "internal", "c09-child", jail)
+	cmd.Stdin = strings.NewReader(req.String())
+	var stdout, stderr bytes.Buffer
+	cmd.Stdout, cmd.Stderr = &stdout, &stderr
+	if err := cmd.Run(); err != nil {
+		return Sx{}, fmt.Errorf("chroot child: %v: %s", err, stderr.String())
+	}
+	return ParseSx(stdout.String())
+}
+
+func init() {
+	internals["c09-child"] = func(args []string) {
+		if err := unix.Chroot(args[0]); err != nil {
+			fmt.Fprintln(os.Stderr, "chroot:", err)
+			os.Exit(3)
+		}
+		if err := os.Chdir("/"); err != nil {
+			fmt.Fprintln(os.Stderr, "chdir:", err)
+			os.Exit(3)
+		}
+		data, err := io.ReadAll(os.Stdin)
+		if err != nil {
+			os.Exit(4)
+		}
+		req, err := ParseSx(string(data))
+		if err != nil {
+			fmt.Fprintln(os.Stderr, "parse:", err)
+			os.Exit(4)
+		}
+		var out Sx
+		func() {
+			defer func() {
+				if r := recover(); r != nil {
+					out = L(N(0xffff), S(fmt.Sprint(r)))
+				}
+			}()
+			out = c09DoReq(req)
+		}()
+		os.Stdout.WriteString(out.String())
+	}
 }
 
 // ---------------------------------------------------------------- generator
@@ -1050,7 +1182,7 @@ func c09GenComposite(r *Rng) *c09composite {
 		}
 		rf := c09RootReal
 		if r.Chance(35) {
-			rf = c09PickRootForm(r)
+			rf = c09PickRootFormNoJail(r)
 		}
 		if rf != c09RootReal {
 			c.rooted = "-rooted"
